@@ -49,6 +49,7 @@ pub fn replay(rf: &ReplayFile) -> anyhow::Result<Option<Failure>> {
         ("C01", _) => hybchecks::exec_c01(&case_from(rf)?).failure,
         ("C06", _) => fetchcheck::exec_fetch(fetchcheck::Which::C06, &case_from(rf)?).failure,
         ("C11", _) => fetchcheck::exec_fetch(fetchcheck::Which::C11, &case_from(rf)?).failure,
+        ("C17", "hybrid-collide") => c17check::replay_hybrid(case_from(rf)?),
         ("C17", "memory-collide") => c17check::replay_mem(case_from(rf)?),
         ("C17", "inflight-collide") => c17check::replay_fetch(case_from(rf)?),
         ("C16", _) => c16check::exec_c16(&case_from(rf)?).failure,
